@@ -445,14 +445,26 @@ impl<T: GseDecapMemory, C: CrcCalculator, MHEM: MandatoryHeaderExtensionManager>
             LabelType::ReUse => match self.last_label {
                 Some(Label::Broadcast) => {
                     self.last_label = None;
+                    // the storage taken for this packet goes back to the memory
+                    if let Err(err) = self.memory.provision_storage(pdu_buffer) {
+                        return Err((DecapError::ErrorMemory(err), pkt_len));
+                    }
                     return Err((DecapError::ErrorLabelBroadcastSaved, pkt_len));
                 }
                 Some(Label::ReUse) => {
                     self.last_label = None;
+                    // the storage taken for this packet goes back to the memory
+                    if let Err(err) = self.memory.provision_storage(pdu_buffer) {
+                        return Err((DecapError::ErrorMemory(err), pkt_len));
+                    }
                     return Err((DecapError::ErrorLabelReUseSaved, pkt_len));
                 }
                 None => {
                     self.last_label = None;
+                    // the storage taken for this packet goes back to the memory
+                    if let Err(err) = self.memory.provision_storage(pdu_buffer) {
+                        return Err((DecapError::ErrorMemory(err), pkt_len));
+                    }
                     return Err((DecapError::ErrorNoLabelSaved, pkt_len));
                 }
                 _ => self.last_label.unwrap(),
